@@ -11,7 +11,7 @@ def optRat : Option Rat → String
   | none => "E"
   | some q => renderRat q
 
-/-- `n` events: `A <tree>` / `B <tree>` (edit of the first / second tree: its new structure), `F0` `F1` (false positives and
+/-- `n` events: `A <tree>` / `B <tree>` (edit of the first / second tree: its new structure), `RA <rooting> <tree>` / `RB …` (its rooting state changed: new flag and structure), `F0` `F1` (false positives and
     negatives with is_bipartitions_updated False / True), `M0` `M1` (find_missing_bipartitions), `W` (both weighted functions, default) -/
 def parseEvs : Nat → List String → Option (List Ev × List String)
   | 0, ws => some ([], ws)
@@ -21,6 +21,12 @@ def parseEvs : Nat → List String → Option (List Ev × List String)
   | n + 1, "B" :: ws => match parseTree ws with
     | some (t, r) => (parseEvs n r).map (fun p => (Ev.editB t :: p.1, p.2))
     | none => none
+  | n + 1, "RA" :: r :: ws => match parseRooted r, parseTree ws with
+    | some r, some (t, rest) => (parseEvs n rest).map (fun p => (Ev.rootA r t :: p.1, p.2))
+    | _, _ => none
+  | n + 1, "RB" :: r :: ws => match parseRooted r, parseTree ws with
+    | some r, some (t, rest) => (parseEvs n rest).map (fun p => (Ev.rootB r t :: p.1, p.2))
+    | _, _ => none
   | n + 1, "F0" :: ws => (parseEvs n ws).map (fun p => (Ev.fpfn false :: p.1, p.2))
   | n + 1, "F1" :: ws => (parseEvs n ws).map (fun p => (Ev.fpfn true :: p.1, p.2))
   | n + 1, "M0" :: ws => (parseEvs n ws).map (fun p => (Ev.missing false :: p.1, p.2))
